@@ -276,6 +276,12 @@ func C14(c *Ctx) {
 		r.Floor("R14.5", "register call sites", n, 2)
 	}
 
+	// R14.6 sender-chosen amounts are not negative
+	r.Rule("R14.6", "no negative amount: the amount of a transfer is parsed from transaction data (big.Int.SetString accepts a sign); every balance write of BlockExecutor.transfer lies behind an edge establishing amount.Sign() >= 0 - a negative amount passes the funds check, moves value from the receiver to the sender and can drive the receiver's balance below zero.")
+	if tr := c.fn("R14.6", "internal/executor.(*BlockExecutor).transfer"); tr != nil && len(tr.Params) >= 4 {
+		r.Floor("R14.6", "balance writes in transfer", c.transferSignCheck("R14.6", tr), 2)
+	}
+
 	// R14.2
 	nDeb := 0
 	for _, s := range all {
